@@ -116,6 +116,17 @@ def gen_specs(rng, thorough):
             p = tuple(r3(base[i] + rng.choice([rng.uniform(-3.2, 3.2), 0.0, 2.51, -2.51, 5.02, rng.uniform(-0.002, 0.002)])) for i in range(3))
             sp.append((el, p))
         specs.append(sp)
+    # (d) hydrogens: H-H pairs closer than the X-H cut-off (never bonded), a hydrogen within X-H distance of two heavy atoms (bonded to both),
+    #     in every atom order
+    for base in ((0.2, 0.3, 0.1), (-5.0, 2.51, -2.51)):
+        b = base
+        hh = [("O", b), ("H", (r3(b[0] + 0.96), b[1], b[2])), ("H", (r3(b[0] + 0.96), r3(b[1] + 0.9), b[2])), ("H", (r3(b[0] + 5.0), b[1], b[2])), ("H", (r3(b[0] + 5.74), b[1], b[2]))]
+        bridge_h = [("O", b), ("H", (r3(b[0] + 1.2), b[1], b[2])), ("O", (r3(b[0] + 2.4), b[1], b[2])), ("N", (r3(b[0] + 8.0), b[1], b[2])), ("H", (r3(b[0] + 8.9), r3(b[1] + 0.9), b[2])),
+                    ("N", (r3(b[0] + 9.8), b[1], b[2]))]
+        for sp in (hh, bridge_h):
+            perms = list(itertools.permutations(sp)) if len(sp) <= 5 and thorough else [tuple(sp), tuple(reversed(sp))] + [tuple(rng.sample(sp, len(sp))) for _ in range(4)]
+            for q in perms[: (120 if thorough else 6)]:
+                specs.append(list(q))
     # (c) a disulfide slid along x through a cell boundary
     for t in ([i * 0.01 for i in range(0, 260, 7)] if thorough else [i * 0.05 for i in range(0, 52, 5)]):
         specs.append([("S", (r3(1.0 + t), 0.1, 0.2)), ("C", (r3(1.0 + t - 1.8), 0.1, 0.2)), ("S", (r3(1.0 + t + 2.04), 0.1, 0.2)), ("C", (r3(1.0 + t + 3.84), 0.1, 0.2))])
